@@ -39,6 +39,7 @@ def run(idx: ProgramIndex, rep: Report, tier: str):
     call_structure(idx, rep)
     consumer_roles(idx, rep)
     aliasing(idx, rep)
+    closed_form_assembly(idx, rep)
 
 
 # ---- C01-1 ---------------------------------------------------------------------------------------------------------
@@ -344,3 +345,89 @@ def aliasing(idx: ProgramIndex, rep: Report):
             rep.add("C01-6", "%s:%s.%s" % (cls.module.name, cls.qualname, name), fi.where, not probs and npaths > 0,
                     "on all %d path(s): no operand overwritten through an alias, no stale reads, arguments not written" % npaths if not probs else "; ".join(probs[:3]), {"paths": npaths})
     rep.floor("C01-6", "prediction-path methods interpreted", n, 15)
+
+
+# ---- C01-7: the closed-form conditional, assembled (non-commutative affine normal forms) -----------------------------------
+def closed_form_assembly(idx: ProgramIndex, rep: Report):
+    """mean cache = (K + S)^-1 (y - m) with K + S and m taken from the *likelihood's marginal* of the training prior;
+    predictive covariance = K** - K*x (K + S)^-1 Kx* (exact path) resp. K** - R R^T (cached-root path)."""
+    from ..domains.linalg import LinEval, lin
+    from ..symbolic import inline, walk_paths
+    rep.rule("C01-7", "closed-form conditional: mean cache = (K+S)^-1 (y - m) from the likelihood's marginal of the training prior; covariance = K** - K*x (K+S)^-1 Kx* (non-commutative affine normal form)")
+    D = idx.find_class("DefaultPredictionStrategy")
+    sn = "self"
+
+    def marginal_of_train_prior(e: ast.AST, zero_mean_ok: bool) -> bool:
+        """self.likelihood(<train prior [with zero mean]>, self.train_inputs)"""
+        if not (isinstance(e, ast.Call) and chain(e.func) == "%s.likelihood" % sn and e.args):
+            return False
+        a = e.args[0]
+        if chain(a) == "%s.train_prior_dist" % sn:
+            return True
+        if zero_mean_ok and isinstance(a, ast.Call) and len(a.args) == 2 and chain(a.args[1]) == "%s.train_prior_dist.lazy_covariance_matrix" % sn:
+            return True  # same covariance, zero mean: only the covariance of the marginal is used
+        return False
+
+    def classify_mc(e: ast.AST) -> Optional[str]:
+        if isinstance(e, ast.Attribute) and e.attr in ("lazy_covariance_matrix", "covariance_matrix") and marginal_of_train_prior(e.value, True):
+            return "KN"
+        if isinstance(e, ast.Attribute) and e.attr in ("loc", "mean") and marginal_of_train_prior(e.value, False):
+            return "MN"
+        if chain(e) == "%s.train_labels" % sn:
+            return "Y"
+        return None
+
+    # (a) the mean cache, 'ignore' branch (the branch taken without missing data)
+    mc = idx.method(D, "_mean_cache", own=True)
+    pol = [p for p in mc.params if "nan_policy" in p]
+    want = lin({("KN^-1", "Y"): 1, ("KN^-1", "MN"): -1})
+    n = 0
+    probs = []
+    for path, seq in walk_paths(mc):
+        if not any(s_.kind == "assume" and s_.truth and pol and src(s_.node).replace("'", '"') == '%s == "ignore"' % pol[0] for s_ in path.steps):
+            continue
+        for st, env in seq:
+            if isinstance(st, ast.Return) and st.value is not None:
+                n += 1
+                v = LinEval(classify_mc, {"KN"}).ev(inline(st.value, env))
+                if v is None or v != want:
+                    probs.append("mean cache is `%s`, expected `%s` (KN, MN: covariance and mean of self.likelihood(self.train_prior_dist, ...))" % (v.show() if v is not None else "not of matrix-affine shape", want.show()))
+    rep.add("C01-7", "%s:DefaultPredictionStrategy._mean_cache[ignore]" % D.module.name, mc.where, n >= 1 and not probs,
+            "(K+S)^-1 (y - m) with K+S and m from the likelihood's marginal of the training prior, on %d path(s)" % n if n >= 1 and not probs else "; ".join(sorted(set(probs))) or "no returning path for the 'ignore' policy", {"paths": n})
+
+    # (b) the predictive covariance
+    pc = idx.method(D, "exact_predictive_covar", own=True)
+    ttc, tt = pc.params[1], pc.params[2]
+
+    def classify_pc(e: ast.AST) -> Optional[str]:
+        if isinstance(e, ast.Name) and e.id == ttc:
+            return "TT"
+        if isinstance(e, ast.Name) and e.id == tt:
+            return "TX"
+        if isinstance(e, ast.Attribute) and e.attr in ("lazy_covariance_matrix", "covariance_matrix") and marginal_of_train_prior(e.value, True):
+            return "KN"
+        if isinstance(e, ast.Call) and chain(e.func) == "%s._exact_predictive_covar_inv_quad_form_root" % sn and len(e.args) == 2 and classify_pc(e.args[1]) == "TX":
+            return "R"
+        return None
+
+    want_exact = lin({("TT",): 1, ("TX", "KN^-1", "TX^T"): -1})
+    want_root = lin({("TT",): 1, ("R", "R^T"): -1})
+    seen = {"exact": 0, "root": 0}
+    probs = []
+    for path, seq in walk_paths(pc):
+        for st, env in seq:
+            if not (isinstance(st, ast.Return) and st.value is not None):
+                continue
+            r = inline(st.value, env)
+            if isinstance(r, ast.Call) and (chain(r.func) or "").split(".")[-1] == "ZeroLinearOperator":
+                continue  # variances skipped by request
+            v = LinEval(classify_pc, {"TT", "KN"}).ev(r)
+            if v is not None and v == want_exact:
+                seen["exact"] += 1
+            elif v is not None and v == want_root:
+                seen["root"] += 1
+            else:
+                probs.append("a returning path yields `%s`; expected `%s` (exact) or `%s` (cached root)" % (v.show() if v is not None else " ".join(src(st.value).split())[:60] + " (not of matrix-affine shape)", want_exact.show(), want_root.show()))
+    ok = not probs and seen["exact"] >= 1 and seen["root"] >= 1
+    rep.add("C01-7", "%s:DefaultPredictionStrategy.exact_predictive_covar" % D.module.name, pc.where, ok,
+            "K** - K*x (K+S)^-1 Kx* on %d exact path(s), K** - R R^T on %d cached-root path(s)" % (seen["exact"], seen["root"]) if ok else "; ".join(sorted(set(probs))[:3]) or "an expected form is missing %s" % seen, seen)
